@@ -167,3 +167,100 @@ Proof. rewrite shiftl_mul. lia. Qed.
 
 Lemma pow2_mod_small a w : a < w -> 2 ^ a mod 2 ^ w = 2 ^ a.
 Proof. intros. apply N.mod_small, pow2_lt_mono. assumption. Qed.
+
+Lemma mod_pow2_mod_le a m n : n <= m -> (a mod 2 ^ m) mod 2 ^ n = a mod 2 ^ n.
+Proof.
+  intros H. replace m with (n + (m - n)) by lia. rewrite N.pow_add_r.
+  rewrite N.mod_mul_r by apply pow2_nz.
+  rewrite (N.mul_comm (2 ^ n)), N.mod_add by apply pow2_nz.
+  apply N.mod_mod, pow2_nz.
+Qed.
+
+Lemma mod_pow2_mod_ge a m n : m <= n -> (a mod 2 ^ m) mod 2 ^ n = a mod 2 ^ m.
+Proof.
+  intros H. apply N.mod_small. eapply N.lt_le_trans; [apply mod_pow2_lt|apply pow2_le_mono; assumption].
+Qed.
+
+Lemma mod_pow2_min a m n : (a mod 2 ^ m) mod 2 ^ n = a mod 2 ^ (N.min m n).
+Proof.
+  destruct (N.le_ge_cases n m).
+  - rewrite N.min_r by assumption. apply mod_pow2_mod_le. assumption.
+  - rewrite N.min_l by assumption. apply mod_pow2_mod_ge. assumption.
+Qed.
+
+(* (a mod 2^m) / 2^k = (a / 2^k) mod 2^(m-k) *)
+Lemma mod_div_pow2 a m k : k <= m -> (a mod 2 ^ m) / 2 ^ k = (a / 2 ^ k) mod 2 ^ (m - k).
+Proof.
+  intros H. replace m with (k + (m - k)) at 1 by lia. rewrite N.pow_add_r.
+  rewrite N.mod_mul_r by apply pow2_nz.
+  rewrite (N.mul_comm (2 ^ k)), N.div_add by apply pow2_nz.
+  rewrite N.div_small by apply mod_pow2_lt. reflexivity.
+Qed.
+
+Lemma lor_aligned_add x a k : x mod 2 ^ k = 0 -> a < 2 ^ k -> N.lor x a = x + a.
+Proof.
+  intros Hx Ha. rewrite (pow2_div_mod_decomp x k), Hx, N.add_0_r.
+  apply lor_high_low. assumption.
+Qed.
+
+Lemma bits_lt v lo n : (v / 2 ^ lo) mod 2 ^ n < 2 ^ n.
+Proof. apply mod_pow2_lt. Qed.
+
+Lemma div_step v lo n : v / 2 ^ lo = (v / 2 ^ lo) mod 2 ^ n + 2 ^ n * (v / 2 ^ (lo + n)).
+Proof.
+  rewrite N.pow_add_r, <- N.div_div by apply pow2_nz.
+  rewrite N.add_comm. apply N.div_mod, pow2_nz.
+Qed.
+
+Lemma bytes2 v : v < 65536 -> (v / 256) mod 256 * 256 + v mod 256 = v.
+Proof.
+  intros H.
+  pose proof (div_step v 0 8) as E0. pose proof (div_step v 8 8) as E1.
+  assert (E2 : v / 2 ^ 16 = 0) by (apply N.div_small; exact H).
+  change (0 + 8) with 8 in *. change (8 + 8) with 16 in *.
+  change (2 ^ 0) with 1 in *. rewrite !N.div_1_r in E0. change (2 ^ 8) with 256 in *.
+  rewrite E2 in E1. remember (v / 256) as q. remember (q mod 256) as r1. remember (v mod 256) as r0. lia.
+Qed.
+
+Lemma bytes4 v : v < 4294967296 ->
+  (v / 16777216) mod 256 * 16777216 + (v / 65536) mod 256 * 65536 + (v / 256) mod 256 * 256 + v mod 256 = v.
+Proof.
+  intros H.
+  pose proof (div_step v 0 8) as E0. pose proof (div_step v 8 8) as E1.
+  pose proof (div_step v 16 8) as E2. pose proof (div_step v 24 8) as E3.
+  assert (E4 : v / 2 ^ 32 = 0) by (apply N.div_small; exact H).
+  change (0 + 8) with 8 in *. change (8 + 8) with 16 in *. change (16 + 8) with 24 in *. change (24 + 8) with 32 in *.
+  change (2 ^ 0) with 1 in *. rewrite !N.div_1_r in E0. change (2 ^ 8) with 256 in *.
+  change (2 ^ 16) with 65536 in *. change (2 ^ 24) with 16777216 in *.
+  rewrite E4 in E3.
+  remember (v / 256) as q1. remember (v / 65536) as q2. remember (v / 16777216) as q3.
+  remember (q1 mod 256) as r1. remember (q2 mod 256) as r2. remember (q3 mod 256) as r3. remember (v mod 256) as r0.
+  lia.
+Qed.
+
+Lemma bytes8 v : v < 18446744073709551616 ->
+  (v / 72057594037927936) mod 256 * 72057594037927936 + (v / 281474976710656) mod 256 * 281474976710656
+  + (v / 1099511627776) mod 256 * 1099511627776 + (v / 4294967296) mod 256 * 4294967296
+  + (v / 16777216) mod 256 * 16777216 + (v / 65536) mod 256 * 65536 + (v / 256) mod 256 * 256 + v mod 256 = v.
+Proof.
+  intros H.
+  pose proof (div_step v 0 8) as E0. pose proof (div_step v 8 8) as E1.
+  pose proof (div_step v 16 8) as E2. pose proof (div_step v 24 8) as E3.
+  pose proof (div_step v 32 8) as E4. pose proof (div_step v 40 8) as E5.
+  pose proof (div_step v 48 8) as E6. pose proof (div_step v 56 8) as E7.
+  assert (E8 : v / 2 ^ 64 = 0) by (apply N.div_small; exact H).
+  change (0 + 8) with 8 in *. change (8 + 8) with 16 in *. change (16 + 8) with 24 in *. change (24 + 8) with 32 in *.
+  change (32 + 8) with 40 in *. change (40 + 8) with 48 in *. change (48 + 8) with 56 in *. change (56 + 8) with 64 in *.
+  change (2 ^ 0) with 1 in *. rewrite !N.div_1_r in E0. change (2 ^ 8) with 256 in *.
+  change (2 ^ 16) with 65536 in *. change (2 ^ 24) with 16777216 in *. change (2 ^ 32) with 4294967296 in *.
+  change (2 ^ 40) with 1099511627776 in *. change (2 ^ 48) with 281474976710656 in *.
+  change (2 ^ 56) with 72057594037927936 in *.
+  rewrite E8 in E7.
+  remember (v / 256) as q1. remember (v / 65536) as q2. remember (v / 16777216) as q3.
+  remember (v / 4294967296) as q4. remember (v / 1099511627776) as q5. remember (v / 281474976710656) as q6.
+  remember (v / 72057594037927936) as q7.
+  remember (q1 mod 256) as r1. remember (q2 mod 256) as r2. remember (q3 mod 256) as r3.
+  remember (q4 mod 256) as r4. remember (q5 mod 256) as r5. remember (q6 mod 256) as r6.
+  remember (q7 mod 256) as r7. remember (v mod 256) as r0.
+  lia.
+Qed.
